@@ -5,13 +5,34 @@
 // ospray
 #include "../../platform.h"
 // stl
+#include <algorithm>
+#include <mutex>
 #include <thread>
+#include <vector>
 
 namespace rkcommon {
   namespace tasking {
     namespace detail {
 
       // TaskSys definitions //////////////////////////////////////////////////
+
+      // Heap tasks handed over by scheduleDetachedTaskInternal(): each one is
+      // deleted once the scheduler no longer uses it. Declared before g_ts so
+      // that it is destroyed after the scheduler has shut down (which runs
+      // whatever is still queued).
+      struct DetachedTasks
+      {
+        std::mutex mutex;
+        std::vector<Task *> tasks;
+
+        ~DetachedTasks()
+        {
+          for (auto *t : tasks)
+            delete t;
+        }
+      };
+
+      static DetachedTasks g_detached;
 
       static std::unique_ptr<enki::TaskScheduler> g_ts;
 
@@ -41,6 +62,30 @@ namespace rkcommon {
       void waitInternal(Task *task)
       {
         g_ts->WaitforTask(task);
+      }
+
+      void scheduleDetachedTaskInternal(Task *task)
+      {
+        // Every recorded task has already been added to the scheduler, so a
+        // running count of zero means the scheduler is finished with it.
+        std::vector<Task *> finished;
+        {
+          std::lock_guard<std::mutex> lock(g_detached.mutex);
+          auto &tasks = g_detached.tasks;
+          auto firstFinished = std::partition(
+              tasks.begin(), tasks.end(), [](Task *t) {
+                return !t->GetIsComplete();
+              });
+          finished.assign(firstFinished, tasks.end());
+          tasks.erase(firstFinished, tasks.end());
+        }
+        for (auto *t : finished)
+          delete t;
+
+        scheduleTaskInternal(task);
+
+        std::lock_guard<std::mutex> lock(g_detached.mutex);
+        g_detached.tasks.push_back(task);
       }
 
     }  // namespace detail
